@@ -411,6 +411,36 @@ def direct_entry_stage(rec, secs, chart):
                           f"direct-entry:{fname}:differs")
             return False
         rec.cls(f"direct_section_entry:{fname}")
+        if k in ("sync", "instrument") and _DIRECT % 2:
+            # the dispatching helper itself, documented as taking "a Sequence of types": handed the kinds as a list it claims and reports
+            # exactly what it does when handed a tuple
+            import chartparse.track as T
+
+            fn = getattr(T, "parse_data_from_chart_lines", None)
+            kinds = (S.BPMEvent.ParsedData, S.TimeSignatureEvent.ParsedData, S.AnchorEvent.ParsedData) if k == "sync" else \
+                (I.NoteEvent.ParsedData, I.StarPowerEvent.ParsedData, I.TrackEvent.ParsedData)
+            if fn is not None:
+                try:
+                    as_tuple = fn(kinds, list(body))
+                except Exception:  # noqa - the helper is not callable this way (any more): skipped, the section entry points above decide
+                    as_tuple = None
+                env.LOG.drain()
+                if as_tuple is not None:
+                    rec.ev()
+                    try:
+                        as_list = fn(list(kinds), list(body))
+                    except Exception as e:  # noqa
+                        env.LOG.drain()
+                        rec.violation("locality", f"[{name}] with {expected} unparsable lines: parse_data_from_chart_lines handed the kinds as a LIST raised "
+                                      f"{harness.exc_str(e)}; handed the same kinds as a tuple it returns", dict(case, types_as_list=True), "dispatch-helper:kinds-as-list:raised")
+                        return False
+                    logs = [m for (lg, lvl, m) in env.LOG.drain() if (lg == "chartparse" or lg.startswith("chartparse.")) and lvl in ("WARNING", "ERROR", "CRITICAL")]
+                    same = all(list(as_list[kk]) == list(as_tuple[kk]) for kk in kinds)
+                    if not same or len(logs) != expected:
+                        rec.violation("locality", f"[{name}]: parse_data_from_chart_lines handed the kinds as a list claims other data than with a tuple, or reports "
+                                      f"{len(logs)} lines instead of {expected}", dict(case, types_as_list=True), "dispatch-helper:kinds-as-list:differs")
+                        return False
+                    rec.cls("dispatch_helper_called_with_kinds_as_list")
     return True
 
 
